@@ -411,6 +411,11 @@ func (o *OS) Seq() int {
 	return o.seq
 }
 
+// SeqNow reads the event counter without advancing it.
+//
+//go:norace
+func (o *OS) SeqNow() int { return o.seq }
+
 // AddFile registers a file.
 func (o *OS) AddFile(name string, kind int, data []byte) {
 	o.FileNames = append(o.FileNames, name)
